@@ -86,6 +86,13 @@ claim("C12", "model-based property testing of one-time-secret histories (rapid) 
       "and the list shrank by exactly one; never more than five one-time passwords; a final sweep uses every remaining one-time password exactly once.",
       TRUST)
 
+claim("C13", "model-based property testing of 2FA-settings histories (rapid): every change of a stored 2FA field of any account must be justified by ground truth",
+      WM + "setup / confirm / remove / regenerate / e-mail-verify requests from anonymous, pending, half-authed and fully authed sessions, with codes and tokens that are valid, valid for another secret or number, empty, absent or stale; "
+      "e-mail authorisation on/off; TOTP and SMS. Oracle: the stored TOTP secret, SMS number and recovery-code set of every account are diffed around every request; a change needs a fully authed owner session and proof of the factor "
+      "being enrolled (code for the enrolling secret/number) or removed (code of the registered factor or an unused recovery code); with e-mail authorisation required an enrolment handler may run only after the session presented the token "
+      "the mailbox shows was mailed to the account for that session, and a completed enrolment spends it.",
+      TRUST)
+
 NOT_YET = "check not built yet in this round (claimed in DESIGN.md; will be claimed once its check is committed)"
 
 def main():
